@@ -92,7 +92,13 @@ def make_case(rng, tier, k):
         delta = rng.choice([0.0, 0.0, 1e-3, 0.015625, 0.0625, 0.25]) * min(nw.feature_size(s1), nw.feature_size(s2))
         s2 = nw.translate_spec(s2, (nw.support_value(s1, e) + nw.support_value(s2, -e) - delta) * e)
         meta = dict(stream="coaxial", kinds=[k1, k2], dir=e.tolist(), delta=delta, L=nw.scene_scale([s1, s2]))
-    elif u < 0.48:
+    elif u < 0.46:
+        # axis-aligned / axis-permuted boxes, cube meshes and cube hulls on a 0.25 grid (narrow-bool's generator class: the
+        # portal discovery swaps vertices and meets exactly degenerate portals there; F-P1, fixed by /repo fdadc7f)
+        from .. import narrow_bool as nb
+        s1, s2, meta = nb.lattice_box_pair(rng, overlap=True)
+        meta = dict(stream="lattice_boxes", kinds=meta["kinds"], L=nw.scene_scale([s1, s2]))
+    elif u < 0.52:
         # exact touching contact on the lattice: plane gap 0 along a lattice direction, centres aligned laterally
         k1, k2 = rng.choice(nw.KINDS), rng.choice(nw.KINDS)
         s1 = nw.gen_collider(rng, k1, "lattice", margin_prob=0.0)
@@ -292,7 +298,7 @@ def correspondence(R, cases, results):
 def run(tier, seed, replay=None):
     R = cm.Run(PID, "translation_validation", tier, seed)
     R.cov["rule"] = ("case = ordered pair of colliders (10 kinds, optional Margin); streams: depth / lattice / deep / nested overlapping pairs "
-                     "(as in C07; overlap pre-checked by the harness' own float GJK), concentric (centres coincide exactly), coaxial (centres and support points on one line, overlap 0 .. deep), touch (lattice colliders in exact touching contact), gap (plane gap in "
+                     "(as in C07; overlap pre-checked by the harness' own float GJK), concentric (centres coincide exactly), coaxial (centres and support points on one line, overlap 0 .. deep), lattice_boxes (axis-aligned boxes / cube meshes / cube hulls on a 0.25 grid), touch (lattice colliders in exact touching contact), gap (plane gap in "
                      "{0, +-1e-9 .. 100}: touching, barely overlapping, separated); distinct by canonical hash; non-trivial = mpr_penetration "
                      "reported an intersection (a depth, direction and position exist) and that result was judged by pen_cert")
     R.assumptions += [
